@@ -5,8 +5,34 @@ from checks.durable_check import replay_execution
 from checks.executor_common import STRICT, c09, c09_decided_but_suspended
 
 
+def decide_during_resume(ctx, execs):
+    """a branch parked on a 1 s timer is being resumed by the timer thread (pop, reset, refresh checkpoint, re-submit) while its
+    sibling's completion decides the policy: every offset of the sibling's end around that window, several schedules each"""
+    import random
+    from checks.durable_common import run_campaign
+    rng = random.Random(ctx.seed + 909)
+    items = []
+    for d in [round(0.1 * k, 2) for k in range(6, 20, (2 if ctx.quick else 1))]:
+        for cfg in ({"min": 1}, {"tolc": 0}):
+            sib = [{"k": "step", "dur": d}] if "min" in cfg else []
+            node = {"k": "par", "cfg": cfg, "caught": True, "branches": [[{"k": "wait", "s": 1}, {"k": "step"}], sib]}
+            if "tolc" in cfg:
+                node["branches"][1] = [{"k": "step", "dur": d}]
+                node["braise"] = [1]
+            p = {"nodes": [node, {"k": "step"}]}
+            for rep in range(2 if ctx.quick else 6):
+                items.append((p, {"seed": rng.randrange(1 << 30), "max_inv": 16, "api_latency": (0.3, 0.05)[rep % 2],
+                                  "strategy": "pct" if rep % 2 else "random"}))
+    out = run_campaign(ctx, items)
+    for e in out:
+        for fn in (c09, c09_decided_but_suspended, oracles.c07):
+            fn(ctx, e)
+    from checks.conc_check import validate_exec_traces
+    validate_exec_traces(ctx, out, STRICT["C09"], name="c09_resume_extrace")
+
+
 def run(ctx):
-    run_conc(ctx, invs=STRICT["C09"], oracle_fns=[c09, c09_decided_but_suspended, oracles.c07],
+    run_conc(ctx, invs=STRICT["C09"], oracle_fns=[c09, c09_decided_but_suspended, oracles.c07], post=decide_during_resume,
              extra_rule="Oracle: one item per input in order; SUCCEEDED/FAILED items carry the branch's own return value / error "
                         "(ground truth recorded inside the branch body); the policy was decided when the call returned; the reason is "
                         "consistent with items and policy; at most max_concurrency bodies at once; the replayed BatchResult equals the first.")
